@@ -183,7 +183,14 @@ func mutateHeader(r *Rand, valid []byte, hdrLen int) []byte {
 		return b
 	}
 	pos := r.intn(hdrLen)
-	switch r.intn(9) {
+	switch r.intn(10) {
+	case 9: // respell one line in the URL-safe base64 alphabet
+		lines := bytes.SplitAfter(b[:hdrLen], []byte("\n"))
+		i := r.intn(len(lines))
+		if !bytes.HasPrefix(lines[i], []byte("-")) {
+			lines[i] = bytes.ReplaceAll(bytes.ReplaceAll(lines[i], []byte("+"), []byte("-")), []byte("/"), []byte("_"))
+		}
+		b = append(bytes.Join(lines, nil), b[hdrLen:]...)
 	case 0: // bit flip
 		b[pos] ^= 1 << uint(r.intn(8))
 	case 1: // delete a byte
